@@ -469,7 +469,7 @@ def run(ctx, model_ok, n):
                         return len(exprs), True
                     cur = cur.v
     # ---- venom front end: one subscript / struct-member step (Expr._lower_array_subscript, _lower_struct_field)
-    vexprs, vmeta = venom_cases(rnd, max(40, n // 2))
+    vexprs, vmeta = venom_cases(rnd, max(120, (3 * n) // 2))   # session 3: raised from n // 2 (0.6 s per 360 cases)
     found = False
     if model_ok and vexprs:
         outs = coqrun.eval_zlists("From Verif Require Import C03.LIR C03.VSL C10.Layout C10.VAddrTemplates.\n", vexprs, "c10vaddr",
@@ -480,7 +480,7 @@ def run(ctx, model_ok, n):
                 found = True
                 break
     ctx.corr["venom_address_steps"] = len(vexprs)
-    pexprs, pmeta = venom_path_cases(rnd, max(40, n // 2))
+    pexprs, pmeta = venom_path_cases(rnd, max(120, (3 * n) // 2))
     if model_ok and pexprs and not found:
         outs = coqrun.eval_zlists("From Verif Require Import C03.LIR C03.VSL C10.Layout C10.VAddrPath.\n", pexprs, "c10vpath",
                                   shard=max(8, len(pexprs) // 4 + 1))
